@@ -587,6 +587,9 @@ func (x Expr) Has(data any) bool {
 					if int(fi) == len(x)-1 && start < end { // last one
 						return true
 					}
+					if end <= start { // an empty range selects nothing
+						continue
+					}
 					end = start + (end-start-1)/step*step
 					for i := end; start <= i; i -= step {
 						v = tv[i]
@@ -610,6 +613,9 @@ func (x Expr) Has(data any) bool {
 					}
 					if int(fi) == len(x)-1 && end < start { // last one
 						return true
+					}
+					if start <= end { // an empty range selects nothing
+						continue
 					}
 					end = start - (start-end-1)/step*step
 					for i := end; i <= start; i -= step {
@@ -650,6 +656,9 @@ func (x Expr) Has(data any) bool {
 					if int(fi) == len(x)-1 && start < end { // last one
 						return true
 					}
+					if end <= start { // an empty range selects nothing
+						continue
+					}
 					end = start + (end-start-1)/step*step
 					for i := end; start <= i; i -= step {
 						v = tv.ValueAtIndex(i)
@@ -673,6 +682,9 @@ func (x Expr) Has(data any) bool {
 					}
 					if int(fi) == len(x)-1 && end < start { // last one
 						return true
+					}
+					if start <= end { // an empty range selects nothing
+						continue
 					}
 					end = start - (start-end-1)/step*step
 					for i := end; i <= start; i -= step {
@@ -712,6 +724,9 @@ func (x Expr) Has(data any) bool {
 					if int(fi) == len(x)-1 && start < end { // last one
 						return true
 					}
+					if end <= start { // an empty range selects nothing
+						continue
+					}
 					end = start + (end-start-1)/step*step
 					for i := end; start <= i; i -= step {
 						v = tv[i]
@@ -726,6 +741,9 @@ func (x Expr) Has(data any) bool {
 					}
 					if int(fi) == len(x)-1 && end < start { // last one
 						return true
+					}
+					if start <= end { // an empty range selects nothing
+						continue
 					}
 					end = start - (start-end-1)/step*step
 					for i := end; i <= start; i -= step {
